@@ -67,6 +67,14 @@ for _i, _eps in enumerate((1e-9, 1e-7, 4e-5, 1e-3)):
     DATASETS["nearcx%d" % _i] = ([-2.0, -1.0, 0.0, 1.0, 2.0 + _eps * 0.5], [0.001 * x + 50.0 for x in
                                                                           (-2.0, -1.0, 0.0, 1.0, 2.0 + _eps * 0.5)])
     DATASETS["nearcy%d" % _i] = ([10.0, 11.0, 12.0, 13.0, 14.0], [-2.0, -1.0, 0.0, 1.0, 2.0 + _eps])
+# coefficients spanning many decades on widely spread abscissae: each still matters at the ends of the table
+_wx = [-950.0, -710.5, -333.25, -120.0, 4.5, 97.75, 260.0, 512.5, 801.0, 990.0]
+DATASETS["wide10"] = (_wx, [4e-11 * x * x + 0.5 * x - 3.0 for x in _wx])
+DATASETS["wide41"] = ([-1000.0 + 50.0 * i for i in range(41)],
+                      [3e-9 * (-1000.0 + 50.0 * i) ** 2 + 0.25 * (-1000.0 + 50.0 * i) + 4000.0 for i in range(41)])
+DATASETS["wide41n"] = ([-1000.0 + 50.0 * i for i in range(41)],
+                       noisy([-1000.0 + 50.0 * i for i in range(41)], lambda x: -7e-10 * x * x + 0.5 * x - 3.0, 1e-4))
+DATASETS["ramp31"] = ([float(i) for i in range(31)], [2e-10 * math.exp(i) + 0.5 * i + 300.0 for i in range(31)])
 DATASETS["big50"] = ([i * 0.5 - 10 for i in range(50)],
                      noisy([i * 0.5 - 10 for i in range(50)], lambda x: 0.3 * x * x - x + 2, 0.5))
 DATASETS["big200"] = ([i * 0.1 for i in range(200)],
@@ -177,11 +185,15 @@ def check_fit(case):
     for g in got[m:]:
         if g != 0.0:
             out.append(("padding", "unused coefficient is %r" % g, None))
-    scale = max(abs(float(r)) for r in ref)
-    scale = max(scale, 1e-300)
+    # relative 1e-6 per coefficient; a coefficient that is (nearly) zero is judged by what it contributes to the
+    # fitted values: 3e-10 of the largest ordinate (measured on the unchanged tree: at most 2.2e-11, on the nearly
+    # degenerate nearcy tables).  (An earlier version used 1e-3 of the LARGEST coefficient as the floor, which hid
+    # a leading coefficient of 4e-11 next to a slope of 0.5 on abscissae of +-1e3: seeded C17-51.)
+    ymax = max(max(abs(y) for y in ys), 1e-300)
     for i in range(m):
         dev = abs(float(Fraction(got[i]) - ref[i]))
-        if dev > REL * max(abs(float(ref[i])), 1e-3 * scale, 1e-12):
+        bmax = max(max(abs(float(B[k][i])) for k in range(len(xs))), 1e-300)
+        if dev > max(REL * abs(float(ref[i])), 3e-10 * ymax / bmax):
             out.append(("coefficients", "%s fit of %s [%s, perm %r]: coefficient %d = %r, exact least "
                         "squares %r" % (kind + str(names), case["set"], form, perm, i, got[i],
                                         float(ref[i])), dev / max(abs(float(ref[i])), 1e-300)))
@@ -226,6 +238,7 @@ def fit_cases():
                 cases.append({"set": name, "perm": perm, "kind": kind, "basis": names, "form": "lists"})
     for names in (["expx", "x", "one"], ["x", "expx", "one"], ["one", "x", "expx"], ["expx", "one"], ["x", "expx"]):
         cases.append({"set": "ramp21", "perm": list(range(21)), "kind": "general", "basis": names, "form": "lists"})
+        cases.append({"set": "ramp31", "perm": list(range(31)), "kind": "general", "basis": names, "form": "lists"})
     # every ordered pair / triple of distinct basis functions on 3 sets
     for name in ("quad6", "noisy7", "big50"):
         ident = list(range(len(DATASETS[name][0])))
@@ -384,6 +397,11 @@ for _v in (2.7, 1.1, 12.3, 0.1, 1.0 / 3, 1e3 / 7, 999.9, -512.3, 123.456):
     for _n in (3, 6, 7, 9):
         DEGENERATE.append({"xs": [_v] * _n, "ys": [float(i * i % 5) for i in range(_n)],
                            "calls": ["corr", "linear", "quadratic", "general_x1", "general_x2x1", "general_prop"]})
+# 150 .. 200 points sharing one non-round abscissa: the round-off residue of n Sxx - Sx^2 grows with n
+for _k in range(0, 400):
+    _v = -1000.0 + _k * 5.003 + 0.7
+    for _n in (150, 190, 197, 200):
+        DEGENERATE.append({"xs": [_v] * _n, "ys": [float(i * i % 5) for i in range(_n)], "calls": ["corr", "linear", "quadratic"]})
 for _a, _n in ((134.4, 18), (0.1, 5), (2.7, 3), (1e3 / 7, 4), (999.9, 2), (1.0 / 3, 7), (12.3, 6)):
     DEGENERATE.append({"xs": [_a, -_a] * _n, "ys": [float((i * 7) % 5) - 0.1 * i for i in range(2 * _n)],
                        "calls": ["quadratic", "general_x2x1"]})
